@@ -46,6 +46,10 @@ func verifR(k int) {
 	if atomic.LoadInt32(&verifConcurrent) != 0 {
 		return
 	}
+	if verifNested != nil {
+		// nesting monitor: a complete parse may run inside the action of reduction number len(verifLog)
+		verifNested(-(len(verifLog) + 1))
+	}
 	verifLog = append(verifLog, k)
 	verifFetchLog = append(verifFetchLog, verifFetched)
 	if len(verifLog) > verifStepLimit {
@@ -279,7 +283,16 @@ func verifModes(req *VerifRequest, resp *VerifResponse) {
 	out := make([]VerifResult, len(req.Cases))
 	inner := make([]VerifResult, 0)
 	for k := range req.Cases {
+		// positions of the inner parse: inside GetToken at every token index (at >= 0), then inside
+		// the action of each of the first reductions (at = -1, -2, ...)
+		ats := []int{}
 		for at := 0; at <= len(req.Cases[k]); at++ {
+			ats = append(ats, at)
+		}
+		for j := 1; j <= len(base[k].Log) && j <= 12; j++ {
+			ats = append(ats, -j)
+		}
+		for _, at := range ats {
 			// the inner parse runs without step limit: take the next case that terminates when run alone
 			ok := -1
 			for d := 1; d <= len(req.Cases); d++ {
@@ -436,7 +449,12 @@ func verifModes(req *VerifRequest, resp *VerifResponse) {
 		out := make([]VerifResult, len(req.Cases))
 		inner := make([]VerifResult, 0)
 		for k := range req.Cases {
+			ats := []int{}
 			for at := 0; at <= len(req.Cases[k]); at++ {
+				ats = append(ats, at)
+			}
+			for ai := 0; ai < len(ats); ai++ {
+				at := ats[ai]
 				// the inner parse runs without step limit: take the next case that terminates when run alone
 				ok := (k + 1) % len(req.Cases)
 				if len(resp.Results) > 0 && len(resp.Results[0]) == len(req.Cases) {
@@ -474,6 +492,10 @@ func verifModes(req *VerifRequest, resp *VerifResponse) {
 				r.Msg = r.Msg + "|at=" + strconv.Itoa(at)
 				if at == 0 {
 					out[k] = r
+					// then inside the action of each of the first reductions (at = -1, -2, ...)
+					for j := 1; j <= len(r.Log) && j <= 12; j++ {
+						ats = append(ats, -j)
+					}
 				} else if r.Verdict != out[k].Verdict || r.Value != out[k].Value || fmt.Sprint(r.Log) != fmt.Sprint(out[k].Log) {
 					out[k] = r
 					out[k].Verdict = "DIFFERS-WHEN-NESTED:" + r.Verdict
